@@ -146,6 +146,8 @@ func (r *Router) handleHTTPRequest(ctx *Context) {
 			if ret := recover(); ret != nil {
 				ctx.Set(CTXRecoverResult, ret)
 				r.OnPanic(ctx)
+				// Notice: the panic skips the last ensureWriteHeader(), so commit the response at here.
+				ctx.writer.ensureWriteHeader()
 			}
 		}()
 	}
